@@ -50,7 +50,7 @@ PROPERTIES = {
              "function (gap recorded, re-received segment removed, tail gap at EOF, coalescing keeps the set).",
              "Level 'other' because the completeness half ('the tracker view equals the set of bytes not yet stored') needs a ghost set of "
              "stored bytes across calls; it is carried by the per-function view contracts above plus C18, not by a single discharged "
-             "invariant. Open findings F13b/F13c/F21 (EOF or File Data PDUs inconsistent with an EOF size received earlier) are reported "
+             "invariant. Open findings F13b/F13c (EOF or File Data PDUs, handled while the Metadata PDU is still missing, that are inconsistent with an EOF size received earlier) are reported "
              "as KNOWN-FINDING. " + ENV,
              "Dest: _lost_segment_handling, _handle_fd_pdu, _handle_eof_pdu, _handle_fd_without_previous_metadata, "
              "_handle_eof_without_previous_metadata, _handle_waiting_for_missing_metadata, _start_deferred_lost_segment_handling, "
@@ -86,8 +86,8 @@ PROPERTIES = {
              "protocol exception, for every PDU kind and every state satisfying the (proved inductive) handler invariants; every private "
              "callee's precondition is proved at its call site; a PDU rejected by the admission check modifies nothing; "
              "UnretrievedPdusToBeSent only if the queue was non-empty at entry.",
-             "Level 'other' only because of open findings: the preconditions of _handle_waiting_for_missing_metadata / _handle_eof_pdu that "
-             "exclude F13b, F13c and F21 (EOF/File Data PDUs inconsistent with an earlier EOF size) cannot be established by the dispatcher "
+             "Level 'other' only because of open findings: the preconditions of _handle_waiting_for_missing_metadata that "
+             "exclude F13b and F13c (EOF/File Data PDUs inconsistent with an earlier EOF size) cannot be established by the dispatcher "
              "for arbitrary PDUs and are reported as KNOWN-FINDING; every other obligation is discharged. FileNotFoundError from a filestore "
              "race is treated as the filestore's documented exception. Default fault handler table as the property says. " + ENV,
              "Source: state_machine, _fsm_non_idle (one instance per step), _check_inserted_packet and all their callees. Dest: "
